@@ -533,8 +533,8 @@ fn set_labels(ids: &mut [usize], k: usize) {
 /// several passes, rayon pools of 1/2/3/16 threads, object reuse, parameter corners.
 fn generate_large(ctx: &mut Ctx) {
     // (n, max_passes, graph kind, colouring kind, threads, reuse); sizes up to 420 are compared
-    // with the Lean model exactly, the larger ones are oracle-only (the list-based model is
-    // cubic there).  Colouring kinds 0 and 3 (random) need many passes, 1 and 2 are block-aligned.
+    // with the proven Lean model, sizes up to 21000 with its array transcription in the driver
+    // (itself compared with the proven model on every smaller case), above that oracle only.  Colouring kinds 0 and 3 (random) need many passes, 1 and 2 are block-aligned.
     type L = (usize, Option<usize>, usize, usize, usize, bool);
     let quick: &[L] = &[
         (131, None, 1, 0, 3, true),
@@ -544,9 +544,9 @@ fn generate_large(ctx: &mut Ctx) {
         (1013, None, 1, 3, 3, true),
         (1531, None, 0, 0, 16, false),
         (2053, None, 1, 2, 2, false),
-        (4099, None, 0, 0, 1, false),
+        (4099, Some(4), 0, 0, 1, false),
         (8197, Some(3), 1, 3, 3, false),
-        (16421, Some(1), 0, 1, 2, false),
+        (16421, Some(1), 0, 3, 2, false),
     ];
     let thorough: &[L] = &[
         (131, None, 0, 0, 1, true),
@@ -576,7 +576,7 @@ fn generate_large(ctx: &mut Ctx) {
         ctx.count(&format!(
             "large:{}",
             match n {
-                0..=420 => "n<=420 (model compared)",
+                0..=420 => "n<=420",
                 421..=2100 => "n 421..2100",
                 2101..=4096 => "n 2101..4096",
                 4097..=8192 => "n 4097..8192",
@@ -690,7 +690,7 @@ fn generate_large(ctx: &mut Ctx) {
         run_op(ctx, &format_op(&c));
     }
     ctx.notes.push(
-        "large/corner stream: KernighanLin is quadratic per pass (all gains and the whole edge cut are recomputed at every flip), so the largest sizes are 16421 (quick, 1 pass) and 65548 (thorough, 1 pass of n/5 flips); 4099 (quick) / 8197 (thorough) run with unlimited passes; n <= 420 is compared with the Lean model exactly, above that the model line is `skip large-n (oracle only)`".into(),
+        "large/corner stream: KernighanLin is quadratic per pass (all gains and the whole edge cut are recomputed at every flip), so the largest sizes are 16421 (quick, 1 pass) and 65548 (thorough, 1 pass of n/5 flips); up to 2053 (quick) / 8197 (thorough) with unlimited passes; n <= 420 is compared with the proven Lean model, n <= 21000 with the driver's array transcription of it (checked against the proven model on every case with n <= 420), 65548 is oracle-only (`skip large-n`)".into(),
     );
 }
 
